@@ -1425,7 +1425,11 @@ func runC14(res *hx.Result, rng *hx.Rng, tier string, outdir string) {
 		"raw and generated writes, UpdateDelay, SignalBoom, reads) plus the 48 scripted collisions of one id (signal A, optional unregister naming A or B, signal B on the same or another connection); " +
 		"concurrent: 3-4 threads (server mailbox, second mailbox through DirectClient, the implementor's goroutine, a second connection) x 2-4 operations, " +
 		"stamped by one atomic counter, half of them with a write held inside the validator while others complete; " +
-		"non-trivial = an invalid or wrongly-typed write is present (sequential), a user id collision, a re-registration or an invalid write is present (subscriber table), or two operations of different threads overlap (concurrent); distinct by sha256"
+		"several properties (an object built with bus.NewBasicObject declaring 2-8 int32 properties): 3-5 threads (service-side UpdateProperty goroutines, further mailboxes of the object, " +
+		"DirectClient, a server connection) x 2-4 reads / writes by name or uid / updates mostly of DIFFERENT properties, a subscriber per property, final reads; and rounds of bursts released by a spin barrier — " +
+		"one writer per property with read-back, a polling reader and final reads of every property, or several writers of one property with subscribers on all — that stop at the first failure; " +
+		"non-trivial = an invalid or wrongly-typed write is present (sequential), a user id collision, a re-registration or an invalid write is present (subscriber table), two operations of different threads overlap (concurrent), " +
+		"two accepted writes of different threads to different properties overlap (several properties; for a configuration of rounds: in a sampled round); distinct by sha256"
 	nSeq, nReg, nConc, nMulti := 120, 60, 80, 40
 	if tier == "thorough" {
 		nSeq, nReg, nConc, nMulti = 4000, 3000, 4000, 2000
